@@ -20,10 +20,21 @@ func (s *scope) pop() {
 // makevar generates and returns a new JS name for the given variable name, adds
 // that mapping to this scope.
 func (s *scope) makevar(varname string) string {
-	s.n++
-	var genName = varname + strconv.Itoa(s.n)
-	s.stack[len(s.stack)-1][varname] = genName
+	var genName = s.genname(varname)
+	s.bind(varname, genName)
 	return genName
+}
+
+// genname generates a new JS name for the given variable name without adding
+// the mapping: the variable is not yet visible.
+func (s *scope) genname(varname string) string {
+	s.n++
+	return varname + strconv.Itoa(s.n)
+}
+
+// bind makes the variable visible under the given JS name in this scope.
+func (s *scope) bind(varname, genName string) {
+	s.stack[len(s.stack)-1][varname] = genName
 }
 
 func (s *scope) lookup(varname string) string {
